@@ -1,3 +1,49 @@
-import Gp.Model.Layers.Udp
+import Gp.Lemmas.Layers.Udp
+/-
+  C19 for layers/udp.go (engine `ludp`): the UDP decoder returns errors, never panics, on
+  every byte string, for every old layer value and EVERY capacity / foreign bytes behind the
+  slice (direct DecodeFromBytes, the NewPacket decode function, the parser path which calls the
+  same DecodeFromBytes).  Termination: the model is a non-recursive total function (udp.go has
+  no loop), so Lean's definitional check is the termination proof; `decode_terminates` states
+  the consequence that every input has a (non-panic) result.
+-/
 namespace Gp.C19.Udp
+open Gp Gp.Udp
+
+/-- Direct `(*UDP).DecodeFromBytes` never panics: any old layer, any data, any spare capacity. -/
+theorem decode_no_panic (old : Layer) (data foreign : Bytes) (k : PanicKind) :
+    decodeFromBytes old { data := data, foreign := foreign } ≠ .panic k := by
+  rw [decode_eq]; intro h; cases h
+
+/-- Same for the `Res (Layer × Bool)` view. -/
+theorem decodeUdp_no_panic (old : Layer) (data foreign : Bytes) (k : PanicKind) :
+    decodeUdp old data foreign ≠ .panic k := by
+  unfold decodeUdp; rw [decode_eq]
+  dsimp only; split <;> (intro h; cases h)
+
+/-- `decodeUDP` as registered for LayerTypeUDP (NewPacket with SkipDecodeRecovery) never panics. -/
+theorem decodeUDP_no_panic (ov : Overrides) (data foreign : Bytes) (k : PanicKind) :
+    decodeUDP ov { data := data, foreign := foreign } ≠ .panic k := by
+  unfold decodeUDP; rw [decode_eq]
+  simp only [bind, Res.bind]
+  split <;> (intro h; cases h)
+
+/-- Every call returns: a result exists and it is `ok` (an error return is the `err` flag). -/
+theorem decode_terminates (old : Layer) (data foreign : Bytes) :
+    ∃ o, decodeFromBytes old { data := data, foreign := foreign } = .ok o :=
+  ⟨_, decode_eq old data foreign⟩
+
+/-- Malformed input is reported as an error, never silently accepted: fewer than 8 bytes, or a
+    Length field in 1..7. -/
+theorem decode_short_is_error (old : Layer) (data foreign : Bytes) (h : data.length < 8) :
+    decodeFromBytes old { data := data, foreign := foreign } = .ok { layer := old, trunc := true, err := true } := by
+  simp [decodeFromBytes, GoSlice.len, h]
+
+/-- non-vacuity / regression inputs: the shapes that tempt an out-of-bounds read -/
+example : decodeUdp Layer.fresh [0, 53, 0, 53, 0xff, 0xff, 0, 0] [] =
+    .ok ({ srcPort := 53, dstPort := 53, length := 65535, checksum := 0, sPort := [0, 53], dPort := [0, 53],
+           contents := [0, 53, 0, 53, 0xff, 0xff, 0, 0], payload := [], pseudo := .none }, true) := by decide
+example : (decodeUdp Layer.fresh [0, 53, 0, 53, 0, 7, 0, 0, 1] [9, 9, 9]).isErr = true := by decide
+example : (decodeUdp Layer.fresh [1, 2, 3] [4, 5, 6, 7, 8, 9]).isErr = true := by decide
+
 end Gp.C19.Udp
